@@ -124,24 +124,26 @@ func c06EvalBody(src string) func(afterReturn *bool) string {
 }
 
 type c06Summary struct {
-	executions int
-	complete   bool
-	outcomes   map[string][]int // observation → one schedule producing it
-	joined     map[string][]int // the same, restricted to executions in which every goroutine had finished when the caller returned
-	topAlive   int              // executions in which the top-level lexer (T1) was still running at a failing return
-	otherAlive []int            // a failing return with T1 finished but another goroutine still running
-	deadlock   []int
-	blocked    []int
-	stuck      []int
-	aliveOK    []int // schedule with a lexer alive at a successful return
-	postOK     []int // lexer activity after a successful return
-	aliveErr   int
-	postErr    int
-	maxSteps   int
+	executions  int
+	complete    bool
+	outcomes    map[string][]int // observation → one schedule producing it
+	joined      map[string][]int // the same, restricted to executions in which every goroutine had finished when the caller returned
+	topAlive    int              // executions in which the top-level lexer (T1) was still running at a failing return
+	otherAlive  []int            // a failing return with T1 finished but another goroutine still running
+	deadlock    []int
+	blocked     []int
+	stuck       []int
+	aliveOK     []int // schedule with a lexer alive at a successful return
+	postOK      []int // lexer activity after a successful return
+	aliveErr    int
+	postErr     int
+	maxSteps    int
 	transitions int64
 }
 
-func failed(obs string) bool { return !strings.HasPrefix(obs, "err=<nil>") && !strings.Contains(obs, " err=<nil> ") }
+func failed(obs string) bool {
+	return !strings.HasPrefix(obs, "err=<nil>") && !strings.Contains(obs, " err=<nil> ")
+}
 
 func c06Explore(body func(afterReturn *bool) string, bound, maxExec int) c06Summary {
 	sum := c06Summary{outcomes: map[string][]int{}, joined: map[string][]int{}}
